@@ -20,9 +20,10 @@ def main():
     rc, out = sh(f"git -C /repo worktree add --detach {SCRATCH} HEAD")
     assert rc == 0, out
     results = []
-    for d in sorted(glob.glob("/tmp/seed-out/C*/m*")):
+    ROOT = os.environ.get("SEED_ROOT", "/tmp/seed-out"); PREFIX = os.environ.get("SEED_PREFIX", "")
+    for d in sorted(glob.glob(ROOT + "/C*/m*")):
         prop, k = d.split("/")[-2], d.split("/")[-1]
-        sid = f"{prop}-{k}"
+        sid = f"{PREFIX}{prop}-{k}"
         if only and sid not in only and prop not in only:
             continue
         patch = os.path.join(d, "patch.diff")
